@@ -1573,7 +1573,7 @@ func (f *frame) exprMulti(e ast.Expr) ([]Value, error) {
 			switch b := b.(type) {
 			case *Obj:
 				if b == nil {
-					return nil, unsup(e.Pos(), "nil pointer dereference in abstract state (.%s)", e.Sel.Name)
+					return nil, &NilDeref{Pos: e.Pos()}
 				}
 				if b.Opaque {
 					return nil, unsup(e.Pos(), "read of field %s of symbolic object %s", e.Sel.Name, b.Name)
